@@ -185,6 +185,23 @@ class C20(Oracle):
                 if r is not None:
                     w.violation('C20', 'shared-' + r[0], st, r[1], culprit)
                     return
+        # -- a result register that has just been written owns its buffer: it shares memory with no
+        #    object the model does not hold to be its alias (an operand, say)
+        if st.reg_expected is not None and st.outcome == 'ok' and st.dest is not None and w.slots[st.dest].alive:
+            R = w.slots[st.dest]
+            rv = R.obj.val
+            if isinstance(rv, np.ndarray) and rv.dtype.kind != 'O' and rv.size:
+                for j in w.live():
+                    O = w.slots[j]
+                    ov = O.obj.val
+                    if j == st.dest or O.token == R.token or not isinstance(ov, np.ndarray) or \
+                            ov.dtype.kind == 'O' or not ov.size:
+                        continue
+                    if np.shares_memory(rv, ov):
+                        w.violation('C20', 'shared-value-buffer', st,
+                                    {'what': 'the result register shares its value buffer with another object',
+                                     'register': st.dest, 'other': j, 'other_origin': O.origin}, culprit)
+                        return
         # -- the copy of an accumulator accumulates into itself, not into the original
         if st.extra.get('acc_shared') is not None and st.outcome == 'ok':
             w.violation('C20', 'shared-register', st,
@@ -486,6 +503,9 @@ class C02(Oracle):
     def saturation(self, w, st, culprit):
         """Clause 5: under saturate an out-of-range input is stored as the bound on its own side."""
         sto = st.store
+        if sto is not None and sto.src is not None and sto.route in CONV_ROUTES and st.outcome == 'ok':
+            self.saturation_of_conversion(w, st, culprit)
+            return
         if sto is None or sto.route not in ('ctor', 'call', 'set_val', 'setitem', 'set_val_raw'):
             return
         if sto.raw and sto.route not in ('ctor', 'set_val_raw'):
@@ -551,6 +571,60 @@ class C02(Oracle):
                 w.violation('C02', 'saturation-side', st,
                             {'stored': repr(g), 'expected_bound': x, 'fmt': [s, nw, nf],
                              'value': [str(v) for v in flat][:6]}, culprit)
+                return
+
+
+    def saturation_of_conversion(self, w, st, culprit):
+        """Clause 5 for inputs that are fixed-point objects: a source value that does not fit the
+        (saturating) destination lands on the bound of its own side, by every conversion route."""
+        sto = st.store
+        sp = st.pre.get(sto.src)
+        if sp is None:
+            return
+        if sto.target == 'dest':
+            if st.dest is None or not w.slots[st.dest].alive:
+                return
+            tgt = w.slots[st.dest].obj
+        else:
+            tgt = st.ret
+        if not isinstance(tgt, Fxp) or tgt.scaled or sp['scale'] not in (None, 1) or sp['bias'] not in (None, 0):
+            return
+        if getattr(tgt.config, 'overflow', None) != 'saturate':
+            return
+        s, nw, nf = bool(tgt.signed), tgt.n_word, tgt.n_frac
+        ssh, kind, sflat = sp['codes']
+        snf = sp['fmt'][2]
+        if nw > 52 or sp['fmt'][1] > 52 or nf < 0 or nf > nw + 8 or abs(nf - snf) > 62 or kind not in 'iuO' or \
+                not all(type(c) is int for c in sflat):
+            return
+        a = obj_array(sflat, ssh)
+        if sto.src_index is not None:
+            try:
+                a = np.asarray(a[sto.src_index], dtype=object)
+            except Exception:
+                return
+        sl = np.asarray(a, dtype=object).ravel().tolist()
+        lo, hi = Q.bounds(s, nw)
+        rounding = tgt.config.rounding
+        sides = []
+        for c in sl:
+            r_ = Q.rnd(Q.scale(Q.unscale(c, snf), nf), rounding)
+            sides.append(hi if r_ > hi else lo if r_ < lo else None)
+        if all(x is None for x in sides):
+            return
+        try:
+            got = np.asarray(tgt.val)
+            if sto.region is not None:
+                got = got[sto.region]
+            want = np.broadcast_to(obj_array(sides, tuple(np.shape(a))), np.shape(got))
+        except Exception:
+            return
+        w.bump('sat_conversion_checked')
+        for g, x in zip(np.asarray(got).ravel().tolist(), np.asarray(want, dtype=object).ravel().tolist()):
+            if x is not None and not same(g, x):
+                w.violation('C02', 'saturation-side', st,
+                            {'stored': repr(g), 'expected_bound': x, 'fmt': [s, nw, nf], 'source_fmt': list(sp['fmt']),
+                             'route': sto.route}, culprit)
                 return
 
 
@@ -835,6 +909,20 @@ class C04(Oracle):
                                      'what': 'the index selects no element: nothing was stored',
                                      'fmt': [s, nw, nf], 'input': [str(v) for v in vals[1]][:6]}, culprit)
                         return
+        if judged_exact and any(0 < abs(Q.scale(v, nf)) < Fraction(1, 1 << 1022) for v in vals[1]):
+            # A scaled value below the smallest normal double (a subnormal input into a format with
+            # negative n_frac): which way such a value rounds is C01/C05's business - the library's
+            # float product underflows to zero - so the range flags of this write are not judged.  The
+            # inaccuracy flag is: the stored element differs from its input whatever the rounding.
+            judged_exact = False
+            w.bump('c04_scaled_value_below_double_range')
+            if sw is None and 'selfreset_at' not in st.extra and not aborted and not st.nested and \
+                    inacc_now and not post['inaccuracy']:
+                w.violation('C04', 'flag-inaccuracy', st,
+                            {'flag': 'inaccuracy', 'before': pflags.get('inaccuracy', False), 'now': True, 'after': False,
+                             'fmt': [s, nw, nf], 'input': [str(v) for v in vals[1]][:3], 'stored': gl[:6],
+                             'what': 'a stored element differs from its (subnormal) input'}, culprit)
+                return
         if judged_exact and sto.arith is not None:
             # the flags of an arithmetic result are judged against the exact result only when the
             # library stored exactly its quantization; a wrong VALUE is C07/C08's subject, not C04's
